@@ -2494,3 +2494,63 @@ Theorem insn_decode_thm dbg be asize aa off w rest :
 Proof.
   apply insn_decode_signed_hyp. intros z Hz rest'. apply enc_sleb_read. exact Hz.
 Qed.
+
+(* ---------- O: RegisterRuleMap's PartialEq is order-insensitive ---------- *)
+
+Lemma uexpr_eqb_eq a b : uexpr_eqb a b = true <-> a = b.
+Proof.
+  destruct a as [o1 l1], b as [o2 l2]. unfold uexpr_eqb. cbn [ue_off ue_len].
+  rewrite andb_true_iff, !N.eqb_eq. split; [intros [-> ->]; reflexivity|intros H; inversion H; auto].
+Qed.
+
+Lemma rule_eqb_eq a b : rule_eqb a b = true <-> a = b.
+Proof.
+  destruct a, b; cbn [rule_eqb]; split; intros H; try discriminate; try reflexivity;
+    try (apply Z.eqb_eq in H; subst; reflexivity);
+    try (apply N.eqb_eq in H; subst; reflexivity);
+    try (apply uexpr_eqb_eq in H; subst; reflexivity);
+    inversion H; subst;
+    try apply Z.eqb_refl; try apply N.eqb_refl; try (apply uexpr_eqb_eq; reflexivity).
+Qed.
+
+Lemma lookup_in r x m : lookup r m = Some x -> In (r, x) m.
+Proof.
+  induction m as [|[k y] m IH]; cbn [lookup]; [discriminate|].
+  destruct (N.eqb_spec k r) as [->|Hne]; [intros H; inversion H; left; reflexivity|].
+  intros H. right. apply IH. exact H.
+Qed.
+
+Lemma in_lookup r x m : nodup m -> In (r, x) m -> lookup r m = Some x.
+Proof.
+  unfold nodup. induction m as [|[k y] m IH]; intros Hn Hi; [contradiction|].
+  cbn [keys map fst] in Hn. inversion Hn as [|? ? Hk Hd]; subst. cbn [lookup].
+  destruct Hi as [Hi|Hi].
+  - inversion Hi; subst. rewrite N.eqb_refl. reflexivity.
+  - destruct (N.eqb_spec k r) as [->|Hne]; [|apply IH; assumption].
+    exfalso. apply Hk. change (In r (keys m)). apply (lookup_some_in r m x). apply IH; assumption.
+Qed.
+
+Lemma half_eq a b :
+  forallb (fun p => orule_eqb (Some (snd p)) (rm_get (fst p) b)) a = true <->
+  (forall r x, In (r, x) a -> lookup r b = Some x).
+Proof.
+  rewrite forallb_forall. split.
+  - intros H r x Hi. specialize (H (r, x) Hi). cbn [fst snd] in H. unfold rm_get in H.
+    destruct (lookup r b) as [y|]; cbn [orule_eqb] in H; [|discriminate].
+    apply rule_eqb_eq in H. subst. reflexivity.
+  - intros H [r x] Hi. cbn [fst snd]. unfold rm_get. rewrite (H r x Hi). cbn [orule_eqb].
+    apply rule_eqb_eq. reflexivity.
+Qed.
+
+(* `==` on rule maps with unique registers holds exactly when every register has the same rule *)
+Theorem rm_eq_same_map a b : nodup a -> nodup b -> (rm_eq a b = true <-> same_map a b).
+Proof.
+  intros Ha Hb. unfold rm_eq. rewrite andb_true_iff, !half_eq. split.
+  - intros [H1 H2] r. destruct (lookup r a) as [x|] eqn:Ea.
+    + symmetry. apply H1. apply lookup_in. exact Ea.
+    + destruct (lookup r b) as [y|] eqn:Eb; [|reflexivity].
+      apply lookup_in in Eb. apply H2 in Eb. congruence.
+  - intros Hs. split; intros r x Hi.
+    + rewrite <- Hs. apply in_lookup; assumption.
+    + rewrite Hs. apply in_lookup; assumption.
+Qed.
